@@ -62,7 +62,28 @@ STORED_QUANTILES = [0.1, 0.9]
 TIME_AXES = ("Month", "Year", "Week", "Day", "Dayofyear", "Dayofmonth", "Monthofyear", "Timeofday")
 
 
-def ghost(G, n_inputs, has_obs=None, clim=None, obs_range=False, other=False, prob=False, ensemble=True):
+_REAL_PREAGG = {"leadtime": verif.data.preaggregate_leadtime, "time": verif.data.preaggregate_time}
+
+
+def preagg_stub(which):
+    """contract stub of preaggregate_leadtime / preaggregate_time (their own contract: contracts/aggregator.py):
+    an opaque array-valued function of the array, tagged with the coordinate vector it was given"""
+    def stub(array, coords, aggregator, length):
+        if isinstance(array, sym.SArr):
+            return sym.arrfn_atom("preagg_" + which, array, (coords.axes[0].name,), kinds=(FIN, NAN))
+        return _REAL_PREAGG[which](array, coords, aggregator, length)
+    return stub
+
+
+def preagg_patch(gh):
+    import contextlib
+    from pyvc import engine
+    st = contextlib.ExitStack()
+    st.enter_context(engine.patched(verif.data, preaggregate_leadtime=preagg_stub("leadtime"), preaggregate_time=preagg_stub("time")))
+    return st
+
+
+def ghost(G, n_inputs, has_obs=None, clim=None, obs_range=False, other=False, prob=False, ensemble=True, agg=None):
     """a Data object in the state Data.__init__ leaves it in (its index lists satisfy the postcondition of
     _get_common_indices, decided separately), with symbolic contents; nothing cached yet"""
     N = n_inputs + (1 if clim else 0)
@@ -99,7 +120,13 @@ def ghost(G, n_inputs, has_obs=None, clim=None, obs_range=False, other=False, pr
             for kk, vv in pr.items():
                 gh.raw[(i, kk)] = vv
                 gh.raw0[(i, kk)] = vv.copy() if vv is not None else None
-        inputs.append(StubInput("in%d" % i, obs, fcst, oth, pr))
+        si = StubInput("in%d" % i, obs, fcst, oth, pr)
+        if agg:
+            si.leadtimes = G.array("leadtimes%d" % i, (L,), kinds=(FIN,), grid=[0.0, 1.0, 2.0, 3.0, 6.0])
+            si.times = G.array("times%d" % i, (T,), kinds=(FIN,), grid=[0.0, 3600.0, 7200.0, 21600.0])
+            G.assume_sorted(si.leadtimes)
+            G.assume_sorted(si.times)
+        inputs.append(si)
     d = object.__new__(verif.data.Data)
     d._remove_missing_across_all = True
     d._legend = None
@@ -120,6 +147,25 @@ def ghost(G, n_inputs, has_obs=None, clim=None, obs_range=False, other=False, pr
     d.dim_agg_length = None
     d.dim_agg_axis = verif.axis.Leadtime()
     d.dim_agg_method = verif.aggregator.Mean()
+    gh.agg = agg
+    if agg:
+        from .metric_det import DualAgg
+        gh.h = G.num("h", integer=True, numpy=False, grid=[1, 2, 3])
+        G.assume(gh.h > 0)
+        d.dim_agg_length = gh.h
+        d.dim_agg_axis = verif.axis.Leadtime() if agg == "leadtime" else verif.axis.Time()
+        d.dim_agg_method = DualAgg()
+
+        def pre(S, k, f, member=None):
+            """input k's stored array for f after -T pre-aggregation with ITS OWN coordinate vector"""
+            raw = gh.raw0[(k, f)]
+            coords = inputs[k].leadtimes if agg == "leadtime" else inputs[k].times
+            if member is not None:
+                raw = raw[:, :, :, member]
+            if S.symbolic:
+                return sym.arrfn_atom("preagg_" + agg, raw, (coords.axes[0].name,), kinds=(FIN, NAN))
+            return _REAL_PREAGG[agg](raw, coords, d.dim_agg_method, gh.h)
+        gh.pre = pre
     d.variable = verif.variable.Variable("ghost", "units")
     # axis value caches (what axis.compute_from_times / leadtimes returned for the common coordinates; C11)
     d.axis_cache, d.axis_cache_unique = {}, {}
@@ -184,6 +230,8 @@ def gathered(S, gh, i, f, c):
     t, l, s = c
     own = (S.at(gh.It[k], (t,)), S.at(gh.Il[k], (l,)), S.at(gh.Is[k], (s,)))
     if f in ("obs", "fcst", "aux", "pit"):
+        if gh.get("agg"):
+            return S.at(gh.pre(S, k, f), own)
         return S.at(gh.raw0[(k, f)], own)
     if f.startswith("thr"):
         thr = float(f[3:])
@@ -200,6 +248,8 @@ def gathered(S, gh, i, f, c):
         mem = _members(S, gh.pre(S, k, "ens"), own) if gh.get("agg") else _members(S, gh.raw0[(k, "ens")], own)
         return S.fn("quantile", mem, (q, "normal_unbiased"))
     if f.startswith("ens"):
+        if gh.get("agg"):
+            return S.at(gh.pre(S, k, "ens", member=int(f[3:])), own)
         return S.at(gh.raw0[(k, "ens")], own + (int(f[3:]),))
     raise ValueError(f)
 
@@ -345,12 +395,12 @@ def _size(G, arr):
     return arr.shape[0] if hasattr(arr, "axes") else len(arr)
 
 
-def _one_request(n_inputs, j, fields, axis_kind, has_obs=None, clim=None, obs_range=False, single=False):
+def _one_request(n_inputs, j, fields, axis_kind, has_obs=None, clim=None, obs_range=False, single=False, agg=None):
     other = "aux" in fields
     prob = any(f not in ("obs", "fcst", "aux") for f in fields)
 
     def setup(G):
-        gh = ghost(G, n_inputs, has_obs=has_obs, clim=clim, obs_range=obs_range, other=other, prob=prob)
+        gh = ghost(G, n_inputs, has_obs=has_obs, clim=clim, obs_range=obs_range, other=other, prob=prob, agg=agg)
         gh.k = _slice_index(G, gh, axis_kind)
         return gh
 
@@ -370,7 +420,7 @@ def _one_request(n_inputs, j, fields, axis_kind, has_obs=None, clim=None, obs_ra
 
 def _reg_request(name, props, *a, **kw):
     s, c, p = _one_request(*a, **kw)
-    return register(Obligation("verif.data.Data.get_scores#POST:" + name, props, s, c, p, modules=MOD,
+    return register(Obligation("verif.data.Data.get_scores#POST:" + name, props, s, c, p, modules=MOD, patch=preagg_patch if kw.get("agg") else None,
                                functions=["verif.data.Data.get_scores", "verif.data.Data._get_score", "verif.data.Data._apply_axis"],
                                assumptions=["A5: observations of different inputs agree wherever both are present (the tool's documented assumption)",
                                             "ghost dataset: Data's index lists satisfy the contract of _get_common_indices (decided by its own obligations)"]))
@@ -412,6 +462,16 @@ _reg_request("N=1,input=0,[obs,q0.5],axis=time(quantile-from-ensemble)", _PROB, 
 _reg_request("N=2,input=1,[q0.1,q0.5,fcst,obs],axis=no", _PROB, 2, 1, ("q0.1", "q0.5", "fcst", "obs"), "no")
 _reg_request("N=2,input=0,pit-single,axis=time", _PROB, 2, 0, ("pit",), "time", single=True)
 _reg_request("N=1,input=0,[ens0,obs],axis=time(ensemble-member)", _PROB, 1, 0, ("ens0", "obs"), "time")
+
+
+_AGG = ("C15", "C08")
+_reg_request("N=2,input=1,[obs,fcst],axis=time,-T-leadtime", _AGG, 2, 1, ("obs", "fcst"), "time", agg="leadtime")
+_reg_request("N=1,input=0,[obs,fcst,aux],axis=no,-T-time", _AGG, 1, 0, ("obs", "fcst", "aux"), "no", agg="time")
+_reg_request("N=2,input=0,[obs,fcst],axis=time,-T-leadtime,input-0-has-no-obs", _AGG, 2, 0, ("obs", "fcst"), "time", has_obs=[False, True], agg="leadtime")
+_reg_request("N=1,input=0,[obs,thr1],axis=time,-T-leadtime(probability-from-aggregated-ensemble)", _AGG, 1, 0, ("obs", "thr1"), "time", agg="leadtime")
+_reg_request("N=1,input=0,[obs,thr0.5],axis=time,-T-leadtime(stored-cdf-not-used-under--T)", _AGG, 1, 0, ("obs", "thr0.5"), "time", agg="leadtime")
+_reg_request("N=1,input=0,[obs,q0.5],axis=time,-T-leadtime(quantile-of-aggregated-ensemble)", _AGG, 1, 0, ("obs", "q0.5"), "time", agg="leadtime")
+_reg_request("N=1,input=0,[ens0,obs],axis=time,-T-leadtime(aggregated-member)", _AGG, 1, 0, ("ens0", "obs"), "time", agg="leadtime")
 
 
 def _bad_input_index(n_inputs, j, clim=None):
